@@ -17,6 +17,10 @@
         tables "dcbits/dcvals/acbits/acvals" (each an int list) per table index, joined by ";"
         blocks natural-order 64-entry blocks "c0,...,c63" joined by ";" ("_" = none)
    jent_enc_rgb <tables> <Yblocks> <Cbblocks> <Crblocks>   -> hex of JentModel.enc_rgb_scan
+   jent_enc_grey_rst <tables> <ri> <blocks>             -> hex of JentRst.enc_grey_scan_rst (ri >= 1)
+   jent_enc_rgb_rst <tables> <ri> <Yblocks> <Cbblocks> <Crblocks> -> hex of JentRst.enc_rgb_scan_rst
+        the T.81 SPEC encoder with restart intervals of ri MCUs separated by FF D0+m; same
+        encodings as jent_enc_grey / jent_enc_rgb
    jent_coefs_rgb <w> <h> <quality> <rgb hex>  -> "Yblocks|Cbblocks|Crblocks"
         the quantised blocks of the three planes exactly as DctPipeline.pipeline8 computes them
         (ycc_planes, stride = div_ceil w 8 * 8, enc_plane with the scaled luma / chroma table)
@@ -81,6 +85,14 @@ let register (reg : string -> (string list -> string) -> unit) : unit =
   reg "jent_enc_rgb" (fun a -> match a with
     | [tables; y; cb; cr] ->
       hex_of_bytes (JentModel.enc_rgb_scan (tables_of tables) (blocks_of y) (blocks_of cb) (blocks_of cr))
+    | _ -> "?");
+  reg "jent_enc_grey_rst" (fun a -> match a with
+    | [tables; ri; blocks] ->
+      hex_of_bytes (JentRst.enc_grey_scan_rst (tables_of tables) (zi ri) (blocks_of blocks))
+    | _ -> "?");
+  reg "jent_enc_rgb_rst" (fun a -> match a with
+    | [tables; ri; y; cb; cr] ->
+      hex_of_bytes (JentRst.enc_rgb_scan_rst (tables_of tables) (zi ri) (blocks_of y) (blocks_of cb) (blocks_of cr))
     | _ -> "?");
   reg "jent_coefs_rgb" (fun a -> match a with
     | [w; h; q; px] ->
